@@ -1,5 +1,403 @@
 import QModel.Core
-/-! C08 — model (not built yet) -/
+/-!
+# C08 — tomography forward model (model of `_set_coeffs` of StandardQst / StandardPovmt / StandardQpt
+(`calc_c_qpt`) / StandardQmpt (`cqpt_to_cqmpt`), of `calc_matA / calc_vecB / calc_prob_dists` in
+standard_qtomography.py, of `convert_var_to_*` (the object built from a variable vector) and of the circuit
+`Experiment.calc_prob_dist → compose_qoperations`)
+
+Objects are real coefficient lists: a state / POVM element is a list of `n = d²` scalars, a gate a list of `n`
+rows, a POVM a list of elements, a measurement process a list of gates.  numpy's `hstack / split / tile /
+outer(...).flatten() / block_diag / reshape` are the list operations `++ / take,drop / tile / outerFlat /
+blockRow / chunks`.  The float constant `np.sqrt(dim)` is the parameter `r` (theorems hold for every `r`).
+The coefficient dictionaries `_coeffs_1st/_coeffs_0th` keyed by `(schedule_index, outcome)` are the association
+list `List Coeff`; `calc_matA / calc_vecB` sort it by key (`sorted(dict.items())`).
+-/
 namespace QM.C08
-def handle (_args : List String) : Option String := none
+
+variable {K : Type}
+
+/-! ## numpy on lists -/
+
+def ldot [Add K] [Mul K] [Zero K] (a b : List K) : K := lsum (List.zipWith (· * ·) a b)
+def lsub [Sub K] (a b : List K) : List K := List.zipWith (· - ·) a b
+def lneg [Neg K] (a : List K) : List K := a.map (- ·)
+def zeros [Zero K] (k : Nat) : List K := List.replicate k 0
+/-- `np.tile(c, k)` -/
+def tile (k : Nat) (c : List K) : List K := (List.replicate k c).flatten
+/-- `np.outer(u, v).flatten()` -/
+def outerFlat [Mul K] (u v : List K) : List K := u.flatMap fun a => v.map fun x => a * x
+/-- `reshape((cnt, n))` of a flat list into `cnt` rows of length `n` -/
+def chunks (n : Nat) : Nat → List K → List (List K)
+  | 0, _ => []
+  | c + 1, l => l.take n :: chunks n c (l.drop n)
+/-- matrix (list of rows) times vector: `hs @ vec` -/
+def matVec [Add K] [Mul K] [Zero K] (hs : List (List K)) (v : List K) : List K := hs.map fun row => ldot row v
+/-- column sums of a list of rows: `rows.sum(axis=0)` (rows of length `n`) -/
+def colSum [Add K] [Zero K] (n : Nat) (rows : List (List K)) : List K :=
+  rows.foldr (fun row acc => List.zipWith (· + ·) row acc) (zeros n)
+/-- row `k` of `block_diag(c, …, c)` (`cnt` blocks of width `w`) restricted to the row `c` of the block:
+`zeros(k·w) ++ c ++ zeros((cnt−1−k)·w)` -/
+def blockRow [Zero K] (w cnt k : Nat) (c : List K) : List K :=
+  zeros (k * w) ++ c ++ zeros ((cnt - 1 - k) * w)
+
+/-! ## the object built from a variable vector (`generate_from_var`, both parametrisations) -/
+
+/-- `convert_var_to_vec`: `np.insert(var, 0, 1/np.sqrt(dim))` -/
+def stateOf [Div K] [One K] (flag : Bool) (r : K) (var : List K) : List K :=
+  if flag then (1 / r) :: var else var
+
+/-- `convert_var_to_vecs` for `m` outcomes, element length `n`:
+flag ⇒ last element `[√d,0,…,0] − Σ others` -/
+def povmOf [Add K] [Sub K] [Zero K] (flag : Bool) (r : K) (n m : Nat) (var : List K) : List (List K) :=
+  if flag then
+    let pre := chunks n (m - 1) var
+    pre ++ [lsub (r :: zeros (n - 1)) (colSum n pre)]
+  else chunks n m var
+
+/-- `convert_var_to_hs`: flag ⇒ first row `np.eye(1, n)` inserted -/
+def gateOf [Zero K] [One K] (flag : Bool) (n : Nat) (var : List K) : List (List K) :=
+  if flag then (1 :: zeros (n - 1)) :: chunks n (n - 1) var else chunks n n var
+
+/-- `convert_var_to_hss`: flag ⇒ first row of the last gate is `e₀ − Σ_k (first row of gate k)` -/
+def mprocessOf [Add K] [Sub K] [Zero K] [One K] (flag : Bool) (n m : Nat) (var : List K) :
+    List (List (List K)) :=
+  if flag then
+    let pre := (chunks (n * n) (m - 1) var).map (chunks n n)
+    let firstRows := pre.map fun hs => match hs with | row :: _ => row | [] => []
+    let lastFirst := lsub (1 :: zeros (n - 1)) (colSum n firstRows)
+    let lastRest := chunks n (n - 1) (var.drop ((m - 1) * (n * n)))
+    pre ++ [lastFirst :: lastRest]
+  else (chunks (n * n) m var).map (chunks n n)
+
+/-! ## Born rule as the circuit evaluates it (`compose_qoperations`, ideal values — no clipping) -/
+
+/-- (Povm, State): `np.vdot(povm_element, state.vec)` per element -/
+def bornPovmState [Add K] [Mul K] [Zero K] (povm : List (List K)) (rho : List K) : List K :=
+  povm.map fun e => ldot e rho
+
+/-- state → gate → povm: (Gate, State) gives `hs @ vec`, then (Povm, State) -/
+def bornPovmGateState [Add K] [Mul K] [Zero K] (povm : List (List K)) (hs : List (List K))
+    (rho : List K) : List K :=
+  bornPovmState povm (matVec hs rho)
+
+/-- state → mprocess → povm, outcome order (mprocess outcome, povm outcome), ideal joint probabilities
+`E_y · (hs_x ρ)` -/
+def bornPovmMprocessState [Add K] [Mul K] [Zero K] (povm : List (List K)) (hss : List (List (List K)))
+    (rho : List K) : List K :=
+  hss.flatMap fun hs => bornPovmGateState povm hs rho
+
+/-- `Mx_rho[0]` (the identity component); gates have at least one row, an empty product gives 0 -/
+def firstEntry [Zero K] (l : List K) : K := match l with | x :: _ => x | [] => 0
+
+/-- the same circuit as the code walks it: (MProcess, State) gives the ensemble `p_x = r·(hs_x ρ)[0]`,
+`ρ_x = hs_x ρ / p_x` (zero state when `p_x = 0`), then (Povm, StateEnsemble) gives `p_x · (E_y · ρ_x)`.
+(`eps_zero` clipping is not modelled: the theorem needs `p_x ≠ 0`.) -/
+def circuitPovmMprocessState [Add K] [Mul K] [Div K] [Zero K] [DecidableEq K] (r : K)
+    (povm : List (List K)) (hss : List (List (List K))) (rho : List K) : List K :=
+  hss.flatMap fun hs =>
+    let mrho := matVec hs rho
+    let p := r * firstEntry mrho
+    if p = 0 then povm.map fun _ => 0
+    else (bornPovmState povm (mrho.map (· / p))).map (p * ·)
+
+/-! ## coefficient dictionaries -/
+
+structure Coeff (K : Type) where
+  key : Nat × Nat
+  a : List K
+  b : K
+deriving DecidableEq
+
+/-- tuple order of Python on `(schedule_index, outcome)` -/
+def keyLe (p q : Nat × Nat) : Bool := p.1 < q.1 || (p.1 == q.1 && p.2 ≤ q.2)
+
+/-- `sorted(self._coeffs_1st.items())` -/
+def sortCoeffs (cs : List (Coeff K)) : List (Coeff K) := cs.mergeSort fun p q => keyLe p.key q.key
+
+/-- `calc_matA`: rows in key order -/
+def matA (cs : List (Coeff K)) : List (List K) := (sortCoeffs cs).map (·.a)
+/-- `calc_vecB` -/
+def vecB (cs : List (Coeff K)) : List K := (sortCoeffs cs).map (·.b)
+
+/-- the dictionaries after the loops `for schedule_index … for element_index …`: `per[si][x]` is the pair
+`(_coeffs_1st[(si, x)], _coeffs_0th[(si, x)])`, inserted in loop order -/
+def mkCoeffs (per : List (List (List K × K))) : List (Coeff K) :=
+  per.zipIdx.flatMap fun (rows, si) => rows.zipIdx.map fun (ab, x) => ⟨(si, x), ab.1, ab.2⟩
+
+/-- one POVM element in `StandardQst._set_coeffs`: flag ⇒ `(vec[1:], vec[0] / np.sqrt(dim))`.
+`none` = IndexError on an empty vector. -/
+def qstRow [Div K] [Zero K] (flag : Bool) (r : K) (vec : List K) : Option (List K × K) :=
+  if flag then
+    match vec with
+    | v0 :: rest => some (rest, v0 / r)
+    | [] => none
+  else some (vec, 0)
+
+def qstSched [Div K] [Zero K] (flag : Bool) (r : K) (povm : List (List K)) : Option (List (List K × K)) :=
+  povm.mapM (qstRow flag r)
+
+/-- `StandardQst._set_coeffs`; schedule = index of the tester POVM.  `none` = IndexError. -/
+def qstCoeffs [Div K] [Zero K] (flag : Bool) (r : K) (povms : List (List (List K))) (scheds : List Nat) :
+    Option (List (Coeff K)) := do
+  let per ← scheds.mapM fun pj => do
+    let povm ← povms[pj]?
+    qstSched flag r povm
+  pure (mkCoeffs per)
+
+/-- one row of `StandardPovmt._set_coeffs`: state vector `rho` (length `n`), outcome `x` of `m` -/
+def povmtRow [Mul K] [Sub K] [Zero K] (flag : Bool) (r : K) (m : Nat) (rho : List K) (x : Nat) :
+    Option (List K × K) :=
+  let n := rho.length
+  let c := zeros (x * n) ++ rho ++ zeros ((m - 1 - x) * n)        -- hstack(pre_zeros, vec, post_zeros)
+  if flag then
+    let aPrime := c.take (n * (m - 1))                              -- np.split(c, [vec_size*(m-1)])
+    let cPrime := c.drop (n * (m - 1))
+    match cPrime with
+    | x0 :: _ => some (lsub aPrime (tile (m - 1) cPrime), r * x0)   -- b = np.sqrt(dim) * c_prime[0]
+    | [] => none
+  else some (c, 0)
+
+def povmtSched [Mul K] [Sub K] [Zero K] (flag : Bool) (r : K) (m : Nat) (rho : List K) :
+    Option (List (List K × K)) :=
+  (List.range m).mapM (povmtRow flag r m rho)
+
+/-- `StandardPovmt._set_coeffs`; schedule = index of the tester state -/
+def povmtCoeffs [Mul K] [Sub K] [Zero K] (flag : Bool) (r : K) (m : Nat) (states : List (List K))
+    (scheds : List Nat) : Option (List (Coeff K)) := do
+  let per ← scheds.mapM fun i => do
+    let rho ← states[i]?
+    povmtSched flag r m rho
+  pure (mkCoeffs per)
+
+/-- rows `c` of `calc_c_qpt` for one schedule: `np.outer(povm_vec, state.vec).flatten()` per element -/
+def cQpt [Mul K] (rho : List K) (povm : List (List K)) : List (List K) := povm.map fun e => outerFlat e rho
+
+/-- flag ⇒ `a = c[int(dim*dim):]`, `b = c[0]` (`n = int(dim*dim)` = length of the state vector) -/
+def qptRow [Zero K] (flag : Bool) (n : Nat) (c : List K) : Option (List K × K) :=
+  if flag then
+    match c with
+    | c0 :: _ => some (c.drop n, c0)
+    | [] => none
+  else some (c, 0)
+
+def qptSched [Mul K] [Zero K] (flag : Bool) (rho : List K) (povm : List (List K)) :
+    Option (List (List K × K)) :=
+  (cQpt rho povm).mapM (qptRow flag rho.length)
+
+/-- `calc_c_qpt` (what `StandardQpt._set_coeffs` stores); schedule = (state index, povm index) -/
+def qptCoeffs [Mul K] [Zero K] (flag : Bool) (states : List (List K)) (povms : List (List (List K)))
+    (scheds : List (Nat × Nat)) : Option (List (Coeff K)) := do
+  let per ← scheds.mapM fun (i, j) => do
+    let rho ← states[i]?
+    let povm ← povms[j]?
+    qptSched flag rho povm
+  pure (mkCoeffs per)
+
+/-- last block row of `cqpt_to_cqmpt` (flag): `a_1 = [d_dash × (m−1) | e_qpt]`, `d_dash = [−d_qpt | 0]`,
+`b_1 = d_qpt.T[0]` -/
+def qmptLastRow [Neg K] [Zero K] (n m : Nat) (c : List K) : Option (List K × K) :=
+  match c with
+  | c0 :: _ => some (tile (m - 1) (lneg (c.take n) ++ zeros (n * n - n)) ++ c.drop n, c0)
+  | [] => none
+
+/-- `cqpt_to_cqmpt` for one schedule: rows (with offsets) in the order (mprocess outcome, povm outcome).
+`n` = `dim ** 2`. -/
+def cqptToCqmpt [Neg K] [Zero K] (flag : Bool) (n m : Nat) (cq : List (List K)) :
+    Option (List (List K × K)) :=
+  let w := n * n
+  if flag then do
+    -- a_0 = [block_diag(c_qpt × (m−1)) | 0],  b_0 = 0
+    let a0 := (List.range (m - 1)).flatMap fun k =>
+      cq.map fun c => (blockRow w (m - 1) k c ++ zeros (w - n), (0 : K))
+    let a1 ← cq.mapM (qmptLastRow n m)
+    pure (a0 ++ a1)
+  else
+    some ((List.range m).flatMap fun k => cq.map fun c => (blockRow w m k c, (0 : K)))
+
+def qmptSched [Mul K] [Neg K] [Zero K] (flag : Bool) (m : Nat) (rho : List K) (povm : List (List K)) :
+    Option (List (List K × K)) :=
+  cqptToCqmpt flag rho.length m (cQpt rho povm)
+
+/-- `StandardQmpt._set_coeffs` -/
+def qmptCoeffs [Mul K] [Neg K] [Zero K] (flag : Bool) (m : Nat) (states : List (List K))
+    (povms : List (List (List K))) (scheds : List (Nat × Nat)) : Option (List (Coeff K)) := do
+  let per ← scheds.mapM fun (i, j) => do
+    let rho ← states[i]?
+    let povm ← povms[j]?
+    qmptSched flag m rho povm
+  pure (mkCoeffs per)
+
+/-! ## `calc_prob_dists` -/
+
+inductive Err
+  | index       -- a schedule refers to a tester that does not exist
+  | shape       -- `matA @ var`: length of var ≠ number of columns
+  | reshape     -- `reshape((num_schedules, -1))`: size not divisible (finding D8)
+deriving Repr, DecidableEq
+
+def Err.toString : Err → String
+  | .index => "index" | .shape => "shape" | .reshape => "reshape"
+
+/-- `matA @ var + vecB` (numpy refuses a `var` whose length differs from the number of columns) -/
+def predictRaw [Add K] [Mul K] [Zero K] (cs : List (Coeff K)) (var : List K) : List K :=
+  (sortCoeffs cs).map fun c => ldot c.a var + c.b
+
+def predict [Add K] [Mul K] [Zero K] (cs : List (Coeff K)) (var : List K) : Except Err (List K) :=
+  if (sortCoeffs cs).all (fun c => c.a.length == var.length) then .ok (predictRaw cs var)
+  else .error .shape
+
+/-- `matrix_util.truncate_and_normalize` on one row -/
+def truncNorm [Add K] [Div K] [Zero K] [LT K] [DecidableLT K] (eps : K) (row : List K) : List K :=
+  let t := row.map fun p => if p < eps then 0 else p
+  t.map (· / lsum t)
+
+/-- `calc_prob_dists`: `tmp.reshape((num_schedules, -1))` then `truncate_and_normalize` row by row.
+The reshape ignores the schedules' own outcome counts. -/
+def calcProbDists [Add K] [Mul K] [Div K] [Zero K] [LT K] [DecidableLT K] (eps : K) (numSched : Nat)
+    (cs : List (Coeff K)) (var : List K) : Except Err (List (List K)) := do
+  let tmp ← predict cs var
+  if numSched = 0 then throw .reshape
+  if tmp.length % numSched ≠ 0 then throw .reshape
+  pure ((chunks (tmp.length / numSched) numSched tmp).map (truncNorm eps))
+
+/-! ## driver -/
+
+def parseVecL? (s : String) : Option (List Rat) := parseList? parseRat? s
+/-- list of vectors separated by `;` (`_` = empty list) -/
+def parseVecs? (s : String) : Option (List (List Rat)) :=
+  if s = "_" then some [] else (s.splitOn ";").mapM parseVecL?
+/-- list of lists of vectors separated by `|` -/
+def parsePovms? (s : String) : Option (List (List (List Rat))) :=
+  if s = "_" then some [] else (s.splitOn "|").mapM parseVecs?
+def parsePairs? (s : String) : Option (List (Nat × Nat)) :=
+  if s = "_" then some [] else
+  (s.splitOn ";").mapM fun t => match t.splitOn ":" with
+    | [a, b] => do let a ← parseNat? a; let b ← parseNat? b; some (a, b)
+    | _ => none
+def parseBool? (s : String) : Option Bool :=
+  if s = "1" then some true else if s = "0" then some false else none
+
+def showVecs (vs : List (List Rat)) : String :=
+  if vs.isEmpty then "_" else ";".intercalate (vs.map (showList showRat))
+
+def showCoeffs (cs : Option (List (Coeff Rat))) : String :=
+  match cs with
+  | none => "err index"
+  | some cs => s!"ok {showVecs (matA cs)} {showList showRat (vecB cs)}"
+
+def showDists (r : Except Err (List (List Rat))) : String :=
+  match r with
+  | .error e => s!"err {e.toString}"
+  | .ok d => s!"ok {showVecs d}"
+
+/-- coefficient list of one of the four tomography classes from the textual request -/
+def coeffsOf (kind : String) (flag : Bool) (r : Rat) (m : Nat) (states : List (List Rat))
+    (povms : List (List (List Rat))) (scheds : List (Nat × Nat)) : Option (Option (List (Coeff Rat))) :=
+  match kind with
+  | "qst" => some (qstCoeffs flag r povms (scheds.map (·.2)))
+  | "povmt" => some (povmtCoeffs flag r m states (scheds.map (·.1)))
+  | "qpt" => some (qptCoeffs flag states povms scheds)
+  | "qmpt" => some (qmptCoeffs flag m states povms scheds)
+  | _ => none
+
+/-! ## the circuits of all schedules with the unknown replaced by the object built from `var`
+(`generate_prob_dists_sequence` → `Experiment.calc_prob_dists`), ideal values -/
+
+def qstCircuit [Add K] [Mul K] [Div K] [Zero K] [One K] (flag : Bool) (r : K)
+    (povms : List (List (List K))) (scheds : List Nat) (var : List K) : Option (List (List K)) :=
+  scheds.mapM fun pj => do
+    let povm ← povms[pj]?
+    pure (bornPovmState povm (stateOf flag r var))
+
+def povmtCircuit [Add K] [Mul K] [Sub K] [Zero K] (flag : Bool) (r : K) (n m : Nat)
+    (states : List (List K)) (scheds : List Nat) (var : List K) : Option (List (List K)) :=
+  scheds.mapM fun i => do
+    let rho ← states[i]?
+    pure (bornPovmState (povmOf flag r n m var) rho)
+
+def qptCircuit [Add K] [Mul K] [Zero K] [One K] (flag : Bool) (n : Nat) (states : List (List K))
+    (povms : List (List (List K))) (scheds : List (Nat × Nat)) (var : List K) : Option (List (List K)) :=
+  scheds.mapM fun (i, j) => do
+    let rho ← states[i]?
+    let povm ← povms[j]?
+    pure (bornPovmGateState povm (gateOf flag n var) rho)
+
+def qmptCircuit [Add K] [Mul K] [Sub K] [Zero K] [One K] (flag : Bool) (n m : Nat)
+    (states : List (List K)) (povms : List (List (List K))) (scheds : List (Nat × Nat)) (var : List K) :
+    Option (List (List K)) :=
+  scheds.mapM fun (i, j) => do
+    let rho ← states[i]?
+    let povm ← povms[j]?
+    pure (bornPovmMprocessState povm (mprocessOf flag n m var) rho)
+
+/-- the QMPT circuit as the code walks it (ensemble with division by `p_x`) -/
+def qmptCircuitWalk [Add K] [Mul K] [Sub K] [Div K] [Zero K] [One K] [DecidableEq K] (flag : Bool) (r : K)
+    (n m : Nat) (states : List (List K)) (povms : List (List (List K))) (scheds : List (Nat × Nat))
+    (var : List K) : Option (List (List K)) :=
+  scheds.mapM fun (i, j) => do
+    let rho ← states[i]?
+    let povm ← povms[j]?
+    pure (circuitPovmMprocessState r povm (mprocessOf flag n m var) rho)
+
+/-- driver dispatch -/
+def circuitOf (kind : String) (flag : Bool) (r : Rat) (n m : Nat) (states : List (List Rat))
+    (povms : List (List (List Rat))) (scheds : List (Nat × Nat)) (var : List Rat) (walk : Bool) :
+    Option (Option (List (List Rat))) :=
+  match kind with
+  | "qst" => some (qstCircuit flag r povms (scheds.map (·.2)) var)
+  | "povmt" => some (povmtCircuit flag r n m states (scheds.map (·.1)) var)
+  | "qpt" => some (qptCircuit flag n states povms scheds var)
+  | "qmpt" => some (if walk then qmptCircuitWalk flag r n m states povms scheds var
+                    else qmptCircuit flag n m states povms scheds var)
+  | _ => none
+
+def handle (args : List String) : Option String :=
+  match args with
+  -- coeffs kind flag r m states povms scheds  →  matA rows and vecB (sorted by key)
+  | ["coeffs", kind, flag, r, m, states, povms, scheds] => do
+      let flag ← parseBool? flag; let r ← parseRat? r; let m ← parseNat? m
+      let states ← parseVecs? states; let povms ← parsePovms? povms; let scheds ← parsePairs? scheds
+      let cs ← coeffsOf kind flag r m states povms scheds
+      some (showCoeffs cs)
+  -- probdists kind flag r m eps states povms scheds var  →  calc_prob_dists
+  | ["probdists", kind, flag, r, m, eps, states, povms, scheds, var] => do
+      let flag ← parseBool? flag; let r ← parseRat? r; let m ← parseNat? m; let eps ← parseRat? eps
+      let states ← parseVecs? states; let povms ← parsePovms? povms; let scheds ← parsePairs? scheds
+      let var ← parseVecL? var
+      let cs ← coeffsOf kind flag r m states povms scheds
+      match cs with
+      | none => some "err index"
+      | some cs => some (showDists (calcProbDists eps scheds.length cs var))
+  -- predict: matA @ var + vecB without reshape
+  | ["predict", kind, flag, r, m, states, povms, scheds, var] => do
+      let flag ← parseBool? flag; let r ← parseRat? r; let m ← parseNat? m
+      let states ← parseVecs? states; let povms ← parsePovms? povms; let scheds ← parsePairs? scheds
+      let var ← parseVecL? var
+      let cs ← coeffsOf kind flag r m states povms scheds
+      match cs with
+      | none => some "err index"
+      | some cs => match predict cs var with
+        | .ok p => some s!"ok {showList showRat p}"
+        | .error e => some s!"err {e.toString}"
+  -- circuit kind flag r n m walk states povms scheds var → per-schedule Born values of objOf var
+  | ["circuit", kind, flag, r, n, m, walk, states, povms, scheds, var] => do
+      let flag ← parseBool? flag; let r ← parseRat? r; let n ← parseNat? n; let m ← parseNat? m
+      let walk ← parseBool? walk
+      let states ← parseVecs? states; let povms ← parsePovms? povms; let scheds ← parsePairs? scheds
+      let var ← parseVecL? var
+      match ← circuitOf kind flag r n m states povms scheds var walk with
+      | some d => some s!"ok {showVecs d}"
+      | none => some "err index"
+  -- objof kind flag r n m var → the object built from var, as a flat list of rows
+  | ["objof", kind, flag, r, n, m, var] => do
+      let flag ← parseBool? flag; let r ← parseRat? r; let n ← parseNat? n; let m ← parseNat? m
+      let var ← parseVecL? var
+      match kind with
+      | "qst" => some s!"ok {showVecs [stateOf flag r var]}"
+      | "povmt" => some s!"ok {showVecs (povmOf flag r n m var)}"
+      | "qpt" => some s!"ok {showVecs (gateOf flag n var)}"
+      | "qmpt" => some s!"ok {showVecs (mprocessOf flag n m var).flatten}"
+      | _ => none
+  | _ => none
+
 end QM.C08
